@@ -830,3 +830,82 @@ def check_asserts(prog, report):
                                              text(st.test)[:40]))
         if not seen:
             raise AnalysisError('%s: no assertions found' % fi.where())
+
+
+# --------------------------------------------------------------------------
+# thorough: order-type table of __integrate (abstract interpretation over the
+# finite domain of interval configurations)
+# --------------------------------------------------------------------------
+def order_type_table(prog, report):
+    import itertools
+    fi = prog.func(SL, 'SingleLayerOperator.__integrate')
+    pa, pb, pc, pd = fi.params[2:]
+    Lx = 'self.gamma_len'
+    rel = {
+        'identical': ['{a} == {c}', '{b} == {d}'],
+        'first contained, left aligned': ['{a} == {c}', '{b} < {d}'],
+        'second contained, right aligned': ['{a} < {c}', '{d} == {b}'],
+        'second strictly inside first': ['{a} < {c}', '{d} < {b}'],
+        'touching': ['{b} == {c}'],
+        'overlapping': ['{a} < {c}', '{c} < {b}', '{b} < {d}'],
+        'disjoint': ['{b} < {c}'],
+    }
+    sizes = {'h_x == h_y': '({b} - {a}) - ({d} - {c}) == 0',
+             'h_x > h_y': '({b} - {a}) - ({d} - {c}) > 0',
+             'h_x < h_y': '({b} - {a}) - ({d} - {c}) < 0'}
+    seams = {'seam ends (a=0, d=L)': ['{a} == 0', '{d} == ' + Lx],
+             'not both seam ends': None}
+    gaps = {'direct gap smaller': '({c} - {b}) < ({L} - {d} + {a})',
+            'seam gap smaller or equal': '({c} - {b}) >= ({L} - {d} + {a})'}
+    glue = {'glued': True, 'open': False}
+    base = ['{a} < {b}', '{c} < {d}', '0 <= {a}', '{d} <= ' + Lx,
+            '{b} - {a} > 1e-7', '{d} - {c} > 1e-7',
+            '({b} - {a}) + ({d} - {c}) <= ' + Lx]
+    fmt = dict(a=pa, b=pb, c=pc, d=pd, L=Lx)
+    table = []
+    n_classes = 0
+    for rname, rfacts in rel.items():
+        for sname, sfact in sizes.items():
+            if rname == 'identical' and sname != 'h_x == h_y':
+                continue
+            for mname, mfacts in seams.items():
+                for gname, gval in glue.items():
+                    gap_opts = gaps.items() if rname == 'disjoint' else [
+                        ('-', None)]
+                    for pname, pfact in gap_opts:
+                        st0 = State()
+                        facts = base + rfacts + [sfact] + (mfacts or [])
+                        if pfact:
+                            facts.append(pfact)
+                        for f in facts:
+                            st0.assume(ast.parse(f.format(**fmt),
+                                                 mode='eval').body)
+                        if mfacts is None:
+                            st0.assume(ast.parse(
+                                '{a} == 0 and {d} == {L}'.format(**fmt),
+                                mode='eval').body, neg=True)
+                        st0.assume(ast.parse('self.glue_space',
+                                             mode='eval').body,
+                                   neg=not gval)
+                        if not st0.reachable():
+                            continue
+                        n_classes += 1
+                        w = Splitter()
+                        w.walk_function(fi.node, st0)
+                        rets = {id(st): st for st, _ in w.rets}
+                        cls = '%s | %s | %s | %s | %s' % (rname, sname,
+                                                          mname, gname,
+                                                          pname)
+                        ok = len(rets) == 1
+                        desc = [text(st.value).replace('\n', ' ')[:70]
+                                for st in rets.values()]
+                        table.append({'class': cls, 'returns': desc})
+                        report.check(
+                            ok, 'R-order-types', cls, fi.where(),
+                            'the branch ladder is decided by the order '
+                            'facts of this configuration class alone and '
+                            'ends in exactly one return: %s' % desc,
+                            construct='__integrate: order type ' + cls)
+    report.extra['order_type_table'] = table
+    report.floor('R-order-types', 40)
+    return n_classes
